@@ -295,7 +295,7 @@ def setters_case(case, res):
                     if exc is not None:
                         res.violation("assign|valid rejected", f"{cls}.{k} = {val!r}: {type(exc).__name__}: {exc}", case, sub)
                         continue
-                    br = invariants.check(s, created=False)
+                    br = invariants.check(s)          # (baseband: chan_bw == sample_rate also after an assignment)
                     if br:
                         res.violation(f"assign|contract|{br[0][0]}", f"after {cls}.{k} = {val!r}: {br}", case, sub)
                 else:
